@@ -1019,8 +1019,36 @@ def a13(repo: Repo) -> RuleResult:
                 if not ps or fi.name == "push_typing_hint_inline_comment":
                     continue
                 pushes = [n for n in calls if n.func.attr in ("push", "push_comment", "push_empty_line", "render_alias_typedef", "render_field_declaration", "render_enum_type", "render_case")]
+                # on the paths of the method with its helpers inlined: a line has been pushed before any push_string
+                engine_ok: Optional[bool] = None
+                if fi.name in ("render",) or fi.name.startswith("render_"):
+                    try:
+                        from .emit import FORMATTERS as _FM, block_flow as _bf
+                        from .normal import V as _Vp
+
+                        sfx_ = next((k_ for k_ in _FM if mod.rel.endswith(k_)), None)
+                        if sfx_ is not None:
+                            fcn_, frel_ = _FM[sfx_]
+                            keep_ = tuple(sorted({n_ for k_ in m.mro(m.cls(fcn_, frel_)) for n_ in k_.methods if n_.startswith(("format_", "formart_"))}))
+                            flow_ = _bf(repo, ci.name, sfx_, fcn_, frel_, {}, keep=keep_)
+                            engine_ok = True
+                            for p_ in flow_.run(fi.node, {"self": _Vp("self")}):
+                                if p_.done == "raise":
+                                    continue
+                                have_line = False
+                                for e_ in p_.effects:
+                                    if e_.kind != "call":
+                                        continue
+                                    if e_.name in ("push", "push_comment", "push_empty_line", "push_docstring", "push_definition_comments", "push_definition_docstring", "push_location_doc"):
+                                        have_line = True
+                                    elif e_.name == "push_string" and not have_line:
+                                        engine_ok = False
+                    except Inconclusive:
+                        engine_ok = None
                 for n in ps:
                     res.inst(part="push_string", where=fi.qual, call=short(src_of(n), 60))
+                    if engine_ok is True and fi.name == "render":
+                        continue
                     before = [p for p in pushes if (p.lineno, p.col_offset) < (n.lineno, n.col_offset)]
                     if before:
                         continue
